@@ -1294,12 +1294,14 @@ class no_zero_sleep:
     busy machine; sleep(0) returns at once while `jug execute` runs in-process"""
     def __enter__(self):
         import time
-        self.time, self.orig = time, time.sleep
-        orig = self.orig
-        time.sleep = lambda s: None if not s else orig(s)
+        from . import patching
+        orig = time.sleep
+        # also where jug holds the function under its own global (`from time import sleep` at module level)
+        self.cm = patching.patch_everywhere(orig, lambda s: None if not s else orig(s), home=time, name='sleep')
+        self.cm.__enter__()
 
     def __exit__(self, *a):
-        self.time.sleep = self.orig
+        self.cm.__exit__(None, None, None)
 
 
 class ExecTimeout(BaseException):
@@ -1404,13 +1406,16 @@ def real_sleep_until(sc, store, writes, slack=None):
         for h, v in writes[st['i']]:
             store.dump(v, h.encode('ascii'))
         st['i'] += 1
+    from . import patching
     orig = time.sleep
     status = None
+    sleep_patch = None
     try:
         with jugrun.quiet():
             with time_limit(EXEC_TIME_LIMIT), low_recursion(slack):
                 store1, space = jug.jug.init(sc.jugfile, store)
-                time.sleep = turn
+                sleep_patch = patching.patch_everywhere(orig, turn, home=time, name='sleep')    # also jug's own `from time import sleep` globals
+                sleep_patch.__enter__()
                 try:
                     cmd.run(options=opts, store=store1, jugspace=space)
                     raise HarnessError('jug sleep-until returned without exiting')
@@ -1419,7 +1424,8 @@ def real_sleep_until(sc, store, writes, slack=None):
                 except StillWaiting:
                     status = 'waiting'
     finally:
-        time.sleep = orig
+        if sleep_patch is not None:
+            sleep_patch.__exit__(None, None, None)
         sys.argv[:] = argv
         sys.path[:] = path
     return status, st['sleeps'], st['i'], list(sc.marks.LOG)
